@@ -207,7 +207,8 @@ program!(
     BcastTwice, |l| {
         let p = l[0].mul(&l[1]);
         let q = l[0].mul(&l[2]);
-        vec![p.add(&q)]
+        let r = p.add(&q);
+        vec![p, q, r]
     }
 );
 program!(
@@ -217,7 +218,8 @@ program!(
         let q = l[0].mul(&l[2]);
         let r = l[0].add(&l[3]);
         let s = p.add(&q);
-        vec![s.add(&r)]
+        let t = s.add(&r);
+        vec![p, q, r, s, t]
     }
 );
 program!(
@@ -292,6 +294,14 @@ program!(
     ConvBias, |l| { let c = l[0].conv(&l[1], (1, 1)); vec![c.add(&l[2])] }
 );
 
+program!(
+    /// conv of a batch followed by a non-linear consumer (the adjoint differs between images)
+    ConvSquare, |l| {
+        let y = l[0].conv(&l[1], (1, 1));
+        let r = y.mul(&y);
+        vec![y, r]
+    }
+);
 program!(
     /// two results sharing a sub-graph: p = a*b, r1 = p + a, r2 = p * b
     TwoRoots, |l| {
